@@ -463,7 +463,8 @@ fn mul_inputs(r: &mut Rng, n: usize, count: usize) -> Vec<(B, B, B)> {
         };
         p.push((a, b));
     }
-    p.into_iter()
+    let mut out: Vec<(B, B, B)> = p
+        .into_iter()
         .map(|(a, b)| {
             let c = match r.below(4) {
                 0 => gen::ones(n),
@@ -472,7 +473,19 @@ fn mul_inputs(r: &mut Rng, n: usize, count: usize) -> Vec<(B, B, B)> {
             };
             (a, b, c)
         })
-        .collect()
+        .collect();
+    // MAX * 2^g: the high half is 2^g - 1 (its lowest digit all ones at digit size g) and the low half + carry wraps
+    for g in [8usize, 16, 32, 64] {
+        if g < 8 * n {
+            let p = gen::pow2(n, g);
+            for c in [gen::ones(n), p.clone(), gen::sub1(&p), gen::add1(&p)] {
+                out.push((gen::ones(n), p.clone(), c.clone()));
+                out.push((p.clone(), gen::ones(n), c.clone()));
+                out.push((gen::sub1(&gen::ones(n)), p.clone(), c));
+            }
+        }
+    }
+    out
 }
 
 fn div_inputs(r: &mut Rng, n: usize, count: usize) -> Vec<(B, B)> {
@@ -601,6 +614,17 @@ fn pow_inputs(r: &mut Rng, n: usize, count: usize) -> Vec<(B, u32)> {
             v.push((b.clone(), e));
             if r.below(2) == 0 {
                 v.push((gen::negate(&b), e));
+            }
+        }
+    }
+    // exponents at the order of the unit group mod 2^W (2^(W-2)) and around it, odd bases: narrow types only
+    if w <= 32 {
+        let lam: u64 = 1u64 << (w - 2);
+        for e in [lam, lam * 2, lam * 3, lam + 1, lam - 1, lam * 4] {
+            if e <= u32::MAX as u64 {
+                for b in [gen::small(n, 3), gen::small(n, 5), gen::negate(&gen::small(n, 3)), gen::ones(n), gen::add1(&gen::pow2(n, 4 * n))] {
+                    v.push((b, e as u32));
+                }
             }
         }
     }
@@ -749,7 +773,70 @@ fn npot_inputs(r: &mut Rng, n: usize, count: usize) -> Vec<B> {
     v
 }
 
+/// a handful of operands for the 2080- and 8192-bit types: dense bytes near 0xff, MAX, powers of ten
+fn giant_inputs(prop: &str, seed: u64, w: u32, thorough: bool) -> Inputs {
+    let n = (w / 8) as usize;
+    let mut r = Rng::new(seed ^ ((w as u64) << 32) ^ 0x61a47);
+    let mut i = Inputs::default();
+    let k = if thorough { 12 } else { 3 };
+    let dense = |r: &mut Rng| -> B { (0..n).map(|_| 0xf0 | (r.next() & 0x0f) as u8).collect() };
+    match prop {
+        "C01" | "C04" => {
+            i.pairs = vec![(gen::ones(n), gen::small(n, 1)), (gen::smax(n), gen::smax(n)), (gen::smin(n), gen::ones(n))];
+            for _ in 0..k {
+                i.pairs.push((gen::extreme(&mut r, n), gen::extreme(&mut r, n)));
+            }
+            i.vals = vec![gen::smin(n), gen::ones(n), gen::random(&mut r, n)];
+        }
+        "C02" => {
+            i.mul = vec![(gen::ones(n), gen::ones(n), gen::ones(n)), (gen::smin(n), gen::ones(n), gen::zero(n))];
+            for _ in 0..k {
+                i.mul.push((dense(&mut r), dense(&mut r), gen::random(&mut r, n)));
+                let h = gen::fit(&gen::random(&mut r, n / 2), n);
+                i.mul.push((h.clone(), gen::fit(&dense(&mut r)[..n / 2].to_vec(), n), gen::ones(n)));
+            }
+        }
+        "C03" => {
+            i.div = vec![(gen::ones(n), gen::small(n, 3)), (gen::smin(n), gen::ones(n))];
+            for _ in 0..k {
+                let m = n / 2 + r.below((n / 2) as u64) as usize;
+                i.div.push((gen::extreme(&mut r, n), gen::fit(&gen::extreme(&mut r, m), n)));
+                i.div.push((dense(&mut r), gen::fit(&dense(&mut r)[..m].to_vec(), n)));
+            }
+        }
+        "C08" => {
+            // ilog10 at and next to powers of ten over the whole width
+            let ten = vec![10u8];
+            let mut p = gen::small(n, 1);
+            let mut kk = 0u32;
+            let step = if thorough { 1 } else { 61 };
+            let off = (seed % step as u64) as u32;
+            loop {
+                if kk % step == off || kk < 2 {
+                    i.logx.push(p.clone());
+                    i.logx.push(gen::sub1(&p));
+                }
+                let q = gen::umul(&p, &ten);
+                if q[n..].iter().any(|x| *x != 0) || q[n - 1] & 0x80 != 0 {
+                    break;
+                }
+                p = q[..n].to_vec();
+                kk += 1;
+            }
+            i.logx.push(gen::ones(n));
+            i.logx.push(gen::smax(n));
+            i.pow = vec![(gen::small(n, 3), w / 2), (gen::small(n, 2), w - 1), (gen::small(n, 2), w), (gen::negate(&gen::small(n, 2)), w - 1), (gen::small(n, 10), 600), (gen::small(n, 7), u32::MAX)];
+            i.log = vec![(gen::ones(n), gen::small(n, 3)), (gen::smax(n), gen::small(n, 7))];
+        }
+        _ => {}
+    }
+    i
+}
+
 fn inputs(prop: &str, seed: u64, w: u32, thorough: bool) -> Inputs {
+    if w > 1024 {
+        return giant_inputs(prop, seed, w, thorough);
+    }
     let n = (w / 8) as usize;
     let mut r = Rng::new(seed ^ ((w as u64) << 32) ^ (prop.as_bytes()[2] as u64 * 131 + prop.as_bytes()[1] as u64));
     let mut i = Inputs::default();
@@ -876,6 +963,7 @@ fn main() {
         for_prims!(run_prim);
     } else {
         for_matrix!(run_bnum);
+        for_giants!(run_bnum);
     }
     let ctx = CTX.with(|c| c.borrow_mut().take().unwrap());
     let (n, splits) = ctx.sink.finish();
